@@ -196,9 +196,18 @@ namespace nmtools::index
      * @return constexpr auto 
      */
     template <typename shape_t, typename indices_t, typename repeats_t, typename axis_t>
-    constexpr auto repeat(const shape_t& shape, const indices_t& indices, const repeats_t& repeats, [[maybe_unused]] axis_t axis)
+    constexpr auto repeat(const shape_t& shape, const indices_t& indices, const repeats_t& repeats, [[maybe_unused]] axis_t axis_)
     {
         using return_t = meta::resolve_optype_t<repeat_t,shape_t,indices_t,repeats_t,axis_t>;
+        // a negative axis counts from the last axis (as in numpy)
+        [[maybe_unused]] const auto axis = [&](){
+            if constexpr (is_none_v<axis_t>) {
+                return axis_;
+            } else {
+                const auto a = static_cast<nm_index_t>(axis_);
+                return (a < 0) ? static_cast<nm_index_t>(a + static_cast<nm_index_t>(len(shape))) : a;
+            }
+        }();
         static_assert (meta::is_index_array_v<return_t>
             , "unsupported index::repeat, could not deduce return type" );
         auto ret = return_t {};
